@@ -282,6 +282,14 @@ fn declared(m: &Model, path: &[String], query: bool) -> bool {
     })
 }
 
+/// the declaration a header resolves to by the textual rule (harness model)
+pub fn resolve(m: &Model, path: &[String], query: bool) -> Option<usize> {
+    m.spelled
+        .iter()
+        .find(|s| m.decl(s.decl).query == query && s.path.len() == path.len() && s.path.iter().zip(path).all(|(a, b)| a.eq_ignore_ascii_case(b)))
+        .map(|s| s.decl)
+}
+
 fn wrong_kind_literal(rng: &mut Rng, p: P) -> Vec<u8> {
     match p {
         P::Str => rng.pick(&["12", "#13abc", "ON"]).as_bytes().to_vec(),
@@ -316,7 +324,10 @@ pub fn make_faulty(rng: &mut Rng, m: &Model, ctx: &[String], u: &Unit, kind: u8)
                 f.mnems = vec!["*NOPE".into()];
             } else {
                 let full = full_header(ctx, u);
-                match rng.below(4) {
+                // the variants that depend on what the header resolves to are only used
+                // for a unit that starts at the root (first unit of its message)
+                let variants = if ctx.is_empty() && !u.colon { 4 } else { 2 };
+                match rng.below(variants) {
                     0 => {
                         // unknown mnemonic at the leaf
                         *f.mnems.last_mut()? = "NOPE".into();
